@@ -420,6 +420,24 @@ pub fn options_overwrite<'a>(
     this.overwrite(other)
 }
 
+/// The time floor and ceiling as the sampling loop reads them
+/// (`BenchOptions::min_time()` / `max_time()`), in picoseconds.
+pub fn options_time_limits(options: &BenchOptions) -> (u128, u128) {
+    (options.min_time().picos, options.max_time().picos)
+}
+
+/// The value parser behind `--min-time` / `--max-time`
+/// (`ParsedSeconds::from_str`); `None` when the text is rejected.
+pub fn parse_seconds(text: &str) -> Option<Duration> {
+    text.parse::<crate::config::ParsedSeconds>().ok().map(|parsed| parsed.0)
+}
+
+/// The runner-level options of a `Divan` (builder calls and
+/// `config_with_args` applied).
+pub fn runner_options(divan: &crate::Divan) -> &BenchOptions<'static> {
+    divan.verif_bench_options()
+}
+
 pub fn options_counter(options: &BenchOptions, kind: u8) -> Option<u64> {
     options.counters.get(counter_kind(kind)).map(|c| c as u64)
 }
